@@ -5,7 +5,7 @@
 From Coq Require Import List ZArith Bool.
 From TskVerif Require Import Base.Common Gen.Generated C18.Model C18.ParserProofs C18.WriterProofs
   C18.BufferProofs C18.TextProofs C18.LabelProofs C18.FastaProofs C18.SafetyProofs C18.IterProofs
-  C18.AsNewickProofs C18.ExactProofs C18.NexusProofs.
+  C18.AsNewickProofs C18.ExactProofs C18.NexusProofs C18.SemanticsProofs.
 Import ListNotations.
 Open Scope Z_scope.
 
@@ -232,3 +232,69 @@ Theorem nexus_data_rows : forall samples nchar mdc als trees,
   = map (fun ua => (slabel (fst ua), snd ua)) (combine samples als) /\
   read_nexus_rows (nexus_lines samples None trees) false = [].
 Proof. exact nexus_data_block. Qed.
+
+(* ---------------- final round ---------------- *)
+(* default labels: the dictionary the general path builds ({u: f"n{u}" for u in ts.samples()},
+   read with .get(v, "")) labels exactly the nodes flagged as samples — internal samples included,
+   non-sample leaves not — and BOTH paths of as_newick(node_labels=None) produce the writer's
+   output for that dictionary, with and without branch lengths *)
+Theorem default_labels_are_the_sample_flags : forall a v f,
+  get (ct_flags a) v = Ok f ->
+  lab_dict (default_dict (samples_of a)) v
+  = if Z.testbit (Z.land f 1) 0 then 110 :: dec v else [].
+Proof. exact default_label_is_sample_flag. Qed.
+
+Theorem as_newick_default_labels_both_paths :
+  forall (Tm : Type) (tsub : Tm -> Tm -> Tm) (print_num : Z -> Tm -> str) (tm : Z -> Tm)
+         (a : ctree) (N rp : Z) (t : rtree),
+    repb a rp t = true -> nodupb (ids t) = true -> memb rp (ids t) = false ->
+    (forall v, In v (ids t) -> 0 <= v < N) ->
+    (forall v, In v (ids t) -> exists f, get (ct_flags a) v = Ok f) ->
+    forall (ibl : bool) (prec W : Z),
+      0 <= W ->
+      (forall p c, In (p, c) (redges t) -> zlen (btoken Tm tsub print_num tm prec p c) <= W) ->
+      as_newick Tm tsub print_num tm a N t LabDefault ibl prec W
+      = Ok (py_newick Tm tsub print_num tm (lab_dict (default_dict (samples_of a))) ibl prec t).
+Proof. exact as_newick_default_map. Qed.
+
+(* sibling order: under C01's link consistency for the node (right_sib runs through its children
+   left to right) tree.children(v) = left_child, right_sib, ... is the child list both writers
+   iterate, and the output lists the children in that order *)
+Theorem children_follow_the_sibling_links : forall a rs p v kids,
+  repb a p (RN v kids) = true -> rs_ok rs kids -> NoDup (map rid kids) ->
+  children_c a rs v = Ok (map rid kids).
+Proof. exact children_in_link_order. Qed.
+
+(* the virtual root (= num_nodes) and every other non-node: the C writer refuses *)
+Theorem fast_path_rejects_non_nodes :
+  forall (Tm : Type) (tsub : Tm -> Tm -> Tm) (print_num : Z -> Tm -> str) (tm : Z -> Tm)
+         (a : ctree) (N root : Z) (ms : bool) (prec B : Z),
+    root < 0 \/ N <= root ->
+    c_newick Tm tsub print_num tm a N root ms prec B = Err c18_err_node_out_of_bounds.
+Proof. exact SemanticsProofs.fast_path_rejects_non_nodes. Qed.
+
+(* nexus: first line #NEXUS; blocks TAXA [DATA] [TREES] in this order and nothing else (no
+   TRANSLATE block, no other BEGIN line) *)
+Theorem nexus_block_structure : forall samples data trees,
+  hd [] (nexus_lines samples data trees) = s2z "#NEXUS" /\
+  block_names (nexus_lines samples data trees)
+  = [s2z "TAXA"] ++ (match data with Some _ => [s2z "DATA"] | None => [] end)
+    ++ (match trees with Some _ => [s2z "TREES"] | None => [] end).
+Proof. exact nexus_blocks. Qed.
+
+(* alignments() (the strings FASTA and nexus DATA carry): length L; outside the sites the
+   reference base, or the missing-data character when there is no reference; at the i-th site the
+   i-th haplotype character *)
+Theorem alignment_reference_and_missing : forall L ref mdc pos h j,
+  0 <= L -> (match ref with Some r => zlen r = L | None => True end) ->
+  0 <= j < L -> ~ In (Z.to_nat j) (map Z.to_nat pos) ->
+  zlen (alignment_of L ref mdc pos h) = L /\
+  nth (Z.to_nat j) (alignment_of L ref mdc pos h) 0
+  = match ref with Some r => nth (Z.to_nat j) r 0 | None => mdc end.
+Proof. exact alignment_outside_sites. Qed.
+
+Theorem alignment_site_characters : forall pos a h i d, NoDup (map Z.to_nat pos) ->
+  (forall p, In p pos -> (Z.to_nat p < length a)%nat) -> length h = length pos ->
+  (i < length pos)%nat ->
+  nth (Z.to_nat (nth i pos 0)) (fill_sites a pos h) d = nth i h d.
+Proof. exact alignment_at_sites. Qed.
